@@ -294,6 +294,11 @@ Definition decode_mode (flags : N) : option cmode :=
 
 (* can_run_singlethreaded / register_polling's choice of polling function *)
 Definition single_threaded (pool : bool) (m : cmode) : bool := pool && negb (m_req_inline m).
+(* register_polling(pool): single_thread_mode_ = can_run_singlethreaded(mode) && pool.get_os_thread_count() == 1
+   ([workers] = get_os_thread_count() of the pool named in start_polling; the second conjunct exists in the code
+   iff the translator found it: Gen.GenMpi.single_mode_one_worker) *)
+Definition single_thread_mode (pool : bool) (workers : nat) (m : cmode) : bool :=
+  single_threaded pool m && (if single_mode_one_worker then Nat.eqb workers 1 else true).
 
 Inductive dres := DOk | DErr | DThrow.    (* the MPI call returned MPI_SUCCESS / an error status / threw *)
 Inductive sig := SigValue | SigError.
@@ -398,16 +403,17 @@ Definition all_modes : list cmode :=
 
 (* ------------------------------------------------------------------ PART C *)
 (* the scheduler's mpi polling function slot: None = null_polling_function,
-   Some st = poll_singlethreaded (st = true) / poll_multithreaded *)
+   Some st = poll_singlethreaded (st = true) / poll_multithreaded; PStart pool workers m = start_polling on a
+   pool with [workers] OS threads ([pool] = enable_pool_ after register_pool: the pool is not the default pool) *)
 Record pstate := { p_fn : option bool; p_depth : nat }.
 Definition p_init : pstate := {| p_fn := None; p_depth := 0 |}.
-Inductive pop := PStart (pool : bool) (m : cmode) | PStop.
+Inductive pop := PStart (pool : bool) (workers : nat) (m : cmode) | PStop.
 (* start_polling -> detail::register_polling(): only when the handler method is not yield_while;
    stop_polling -> detail::unregister_polling(pool): always clears *)
 Definition p_step (s : pstate) (o : pop) : pstate :=
   match o with
-  | PStart pool m =>
-      {| p_fn := match m_method m with YieldWhile => p_fn s | _ => Some (single_threaded pool m) end;
+  | PStart pool w m =>
+      {| p_fn := match m_method m with YieldWhile => p_fn s | _ => Some (single_thread_mode pool w m) end;
          p_depth := S (p_depth s) |}
   | PStop => {| p_fn := None; p_depth := p_depth s - 1 |}
   end.
@@ -415,7 +421,7 @@ Definition p_run (ops : list pop) : pstate := fold_left p_step ops p_init.
 Fixpoint balanced (d : nat) (ops : list pop) : bool :=
   match ops with
   | [] => Nat.eqb d 0
-  | PStart _ _ :: r => Nat.eqb d 0 && balanced 1 r      (* enable_polling scopes do not nest *)
+  | PStart _ _ _ :: r => Nat.eqb d 0 && balanced 1 r      (* enable_polling scopes do not nest *)
   | PStop :: r => Nat.eqb d 1 && balanced 0 r
   end.
 
@@ -448,7 +454,9 @@ Fixpoint balanced (d : nat) (ops : list pop) : bool :=
        SCompact       : compact_vectors(); return
    [k : option (nat * req)] = the callback (slot, request) inside which a nested submission runs.
    Every thread id may run every step (Base/Conc.v); the theorems assume [one_thread]: all steps are taken by
-   one OS thread (the dedicated pool has one worker and non-inline requests are transferred to it).  *)
+   one OS thread.  The code enforces it: this poller is installed only when [single_thread_mode pool workers m],
+   i.e. the polling pool has exactly one worker (MpiSingleProofs.single_mode_one_worker_lemma) and non-inline
+   requests are transferred to that pool.  *)
 Inductive spc :=
 | SIdle
 | SSCnt (r : req) (k : option (nat * req))
